@@ -786,7 +786,8 @@ package lisp
 //@ func builtinApply
 //@   requires rtOK(env) && len(env.Runtime.Stack.Frames) >= 1 && argsOK(args, 1)
 //@   assert-at FunCall [frame-marked-terminal-before-the-call] env.Runtime.Stack.Frames[len(env.Runtime.Stack.Frames)-1].Terminal
-//@   property C02
+//@   assert-at FunCall [the-argument-list-is-built-for-this-call] arg2 != nil && fresh(arg2) && (len(arg2.Cells) > 0 ==> fresh(arr(arg2.Cells)))
+//@   property C02 C09
 
 // ---------------------------------------------------------------- C11: sharing, copying, mutation
 
